@@ -21,13 +21,17 @@ RULE = ("seeded two-sided histories of 1-12 commands on 2-5 real HasTraits objec
 TRUSTED = ["Py.List / Py.Slice and Model.TraitList (shared with C05; correspondence-checked there)",
            "change detection (`old != new` in ctraits setattr) is modelled as structural inequality of the harness values "
            "(ints, numeric strs, lists of ints)",
-           "registration state of the two sync handlers is not modelled separately: the model runs them iff the "
-           "partner table of the trait is non-empty (true when every link joins two List traits or two non-List traits)",
+           "registration of _sync_trait_modified is not modelled as state: it is registered exactly while the partner "
+           "table of the trait is non-empty, or stays registered after a partner died, when it returns at once "
+           "(on_trait_change does not register a handler twice); registration of _sync_trait_items_modified IS "
+           "state of the model (World.hooked)",
+           "List traits have no minlen/maxlen (maxlen = sys.maxsize treated as unbounded; Model.guardLen is used for "
+           "the exceptions the length guard raises before validation)",
            "CPython's recursion limit is the model's depth budget; C20_terminates shows it is never reached",
            "list.sort = merge sort on ints in the driver"]
 ASSUMPTIONS = ["user handlers only record; handlers that raise or re-enter are C19's business",
-               "links join traits of the same kind (List-List or scalar-scalar); the exception is the `#` corpus case "
-               "of the items-handler-registration finding",
+               "the traits are scalar traits and List traits; a List trait linked to an Any trait (which then holds the "
+               "very same list object) is outside the model: the `#hook` corpus case runs on the implementation only",
                "weak references die at `del` + gc.collect() (CPython reference counting)"]
 EXHAUSTIVE = {"quick": False, "thorough": False}
 
@@ -61,7 +65,7 @@ def generate(rng, tier):
     if tier == "quick":
         n, ngc = 2000, 0
     elif tier == "thorough":
-        n, ngc = 30000, 2500
+        n, ngc = 40000, 3000
     else:
         n, ngc = 12000, 800
     for _ in range(n):
@@ -233,6 +237,7 @@ def _run(specs, cmds, objs, recs, swallowed, guard):
     D = set()          # links the history has definitely established (oracle's own book-keeping)
     U = set()          # registrations left behind by a sync_trait call that raised (unspecified by the property)
     killed = False
+    crossed = set()    # traits that ever were one end of a List / non-List link (finding F61 stays with them)
     tainted = False    # a divergence was already reported: later differences are consequences
     tags.add("objs:%d" % len(objs))
     for cmd in cmds:
@@ -374,6 +379,8 @@ def _run(specs, cmds, objs, recs, swallowed, guard):
             mutual = bool(cmd[5])
             tags.add("li:" + ("mutual" if mutual else "oneway") + (":alias" if p[1] != q[1] else "")
                      + (":self" if p[0] == q[0] else "") + (":cross" if (p[1] in L.LISTS) != (q[1] in L.LISTS) else ""))
+            if (p[1] in L.LISTS) != (q[1] in L.LISTS):
+                crossed.update((p, q))
             # what the documented behaviour needs to assign: partner := own value (then, mutual, own := partner's)
             cur = {p: val(before, p), q: val(before, q)}
             new_edge = (p, q) not in D
@@ -475,7 +482,7 @@ def _run(specs, cmds, objs, recs, swallowed, guard):
                 # the one divergence that is decidable without uniform validators: a mutual List-List link of
                 # equal idempotent kind, both lists equal before an in-place mutation of one of them, whose
                 # trait also has (or had registered, by a call that raised) a partner that is not a List trait
-                if (k == "mu" and cross and (b, a) in D and a < b and p in (a, b) and ev_p
+                if (k == "mu" and (cross or p in crossed) and (b, a) in D and a < b and p in (a, b) and ev_p
                         and _uniform(specs, {a, b}) and a[1] in L.LISTS
                         and val(before, a) == val(before, b) and val(after, a) != val(after, b)
                         and not calls(b if p == a else a, True)):
@@ -505,6 +512,9 @@ def _run(specs, cmds, objs, recs, swallowed, guard):
             tainted = True
             if k == "mu" and cyc:
                 sig = "sync-diverged:list-cycle"
+            elif (k == "mu" and p in crossed and p in (a, b) and val(before, a) == val(before, b)
+                  and not calls(b if p == a else a, True)):
+                sig = "sync-diverged:items-handler-not-registered"
             elif ext:
                 sig = "sync-diverged:extended-slice"
             elif k == "mu" and len(calls(p, True)) + sum(len(calls(r, True)) for r in comp) > 8:
